@@ -77,6 +77,81 @@ def file_history_worker(ns, items, res, opts):
         shutil.rmtree(d, ignore_errors=True)
 
 
+def odd_history_worker(ns, items, res, opts):
+    """Histories on one live object that leave the running order in a state the ID-based harnesses exclude: stories that
+    repeat a storyID (a re-sent roStoryAppend, an append / replace carrying an existing ID, blank storyIDs), roDeletes
+    naming another or a blank roID.  After every step: the serialisation reads back as a RunningOrder with an identical
+    serialisation, the same story IDs and item IDs, the same completed flag; one roCreate and at most one completion record."""
+    import warnings
+    import xml.etree.ElementTree as ET
+    from .. import gen, explore
+    prop = opts['prop']
+    st = lambda i, v=0: gen.story_xml(i, v, rich=True, body=(('p', 'unicode'), ('i', 'a')))   # noqa
+    pool = {
+        'append-existing-A': lambda n: gen.msg_story_append([st('A', 1)], msg_id=n),
+        'append-E': lambda n: gen.msg_story_append([st('E')], msg_id=n),
+        'append-E-resent': lambda n: gen.msg_story_append([st('E')], msg_id=n),
+        'append-two-blank-ids': lambda n: gen.msg_story_append([st(gen.BLANK), st(gen.BLANK, 1)], msg_id=n),
+        'replace-C-by-A': lambda n: gen.msg_story_replace('C', [st('A', 2)], msg_id=n),
+        'insert-before-C-E-E': lambda n: gen.msg_story_insert('C', [st('E', 3), st('E', 4)], msg_id=n),
+        'roDelete-other-roID': lambda n: gen.msg_ro_delete(ro_id='ANOTHER-RO', msg_id=n),
+        'roDelete-blank-roID': lambda n: gen.msg_ro_delete(ro_id='', msg_id=n),
+        'roDelete': lambda n: gen.msg_ro_delete(msg_id=n),
+        'metadata': lambda n: gen.msg_metadata_replace(['<roSlug>new &amp; slug</roSlug>'], msg_id=n),
+    }
+    for base_kind, seq in items:
+        ro_id = gen.RO_ID if base_kind == 'std' else ''
+        base = gen.ro_text([st('A'), st('AB'), st('C')], 'between', gen.meta_elems(2), ro_id=ro_id)
+        ro = ns.mt.MosFile.from_string(base)
+        history = []
+        for k, name in enumerate(('',) + tuple(seq)):
+            if name:
+                text = pool[name](3000 + k)
+                if base_kind != 'std':
+                    text = text.replace(f'<roID>{gen.RO_ID}</roID>', '<roID></roID>')
+                with warnings.catch_warnings():
+                    warnings.simplefilter('ignore')
+                    try:
+                        ro += ns.mt.MosFile.from_string(text)
+                    except ns.exc.MosMergeError:
+                        pass
+                history.append(name)
+            res.transitions += 1
+            res.nontrivial += 1
+            res.extra['states'] += 1
+            res.extra['odd_history_states'] += 1
+            res.by_outcome['odd-history'] += 1
+            bad = None
+            try:
+                s1 = str(ro)
+                root = ET.fromstring(s1)
+                back = ns.mt.MosFile.from_string(s1)
+                s2 = str(back)
+                ids1 = [(s.id, [i.id for i in (s.items or [])]) for s in ro.stories]
+                ids2 = [(s.id, [i.id for i in (s.items or [])]) for s in back.stories]
+                if type(back).__name__ != 'RunningOrder':
+                    bad = ('class', f'reads back as {type(back).__name__}')
+                elif s2 != s1:
+                    bad = ('serialisation', 'the serialisation of the re-read running order differs')
+                elif ids1 != ids2:
+                    bad = ('stories', f'stories/items {ids1} read back as {ids2}')
+                elif bool(back.completed) != bool(ro.completed):
+                    bad = ('completed', f'completed {ro.completed} reads back as {back.completed}')
+                elif len(root.findall('roCreate')) != 1:
+                    bad = ('roCreate-count', f'{len(root.findall("roCreate"))} roCreate elements')
+                elif len(root.findall('mosromgrmeta')) > 1 or len(root.findall('mosromgrmeta/roDelete')) > 1:
+                    bad = ('completion-records', f'{len(root.findall("mosromgrmeta"))} completion records')
+                elif bool(ro.completed) != (root.find('mosromgrmeta/roDelete') is not None):
+                    bad = ('completed-vs-record', f'completed={ro.completed} but completion record present={root.find("mosromgrmeta/roDelete") is not None}')
+            except Exception as e:  # noqa
+                bad = (f'raised:{type(e).__name__}', f'{type(e).__name__}: {e}')
+            if bad:
+                explore.add_simple_finding(res, prop, f'ODD-HISTORY:{bad[0]}:after:{history[-1] if history else "start"}:roID={base_kind}',
+                                           f'history {history} (running order with {"its usual" if base_kind == "std" else "a blank"} roID): {bad[1]}',
+                                           history=history, base=base)
+                break
+
+
 def vacuity(by_kind, by_outcome, extra, by_class):
     probs = [f'message class {k} never exercised' for k in spec.ALL_KINDS if not by_kind.get(k)]
     for k in ('states_round_tripped', 'bisimulation_steps'):
@@ -116,11 +191,17 @@ def run(tier):
     steps = ('send', 'append', 'meta', 'replace', 'delete')
     seqs = [p for n in range(0, (3 if tier == 'quick' else 5) + 1) for p in itertools.permutations(steps, n)]
     enum_parts = [{'label': 'histories-read-with-from_file', 'worker': file_history_worker, 'items': seqs, 'chunk': 10}]
+    odd = ('append-existing-A', 'append-E', 'append-E-resent', 'append-two-blank-ids', 'replace-C-by-A', 'insert-before-C-E-E',
+           'roDelete-other-roID', 'roDelete-blank-roID', 'roDelete', 'metadata')
+    odd_seqs = [(b, p) for b in ('std', 'blank') for n in range(0, (3 if tier == 'quick' else 4) + 1) for p in itertools.permutations(odd, n)]
+    enum_parts.append({'label': 'histories-with-repeated-IDs-and-foreign-roDeletes', 'worker': odd_history_worker, 'items': odd_seqs, 'chunk': 40})
     return runner.graph_check(
         'C14', tier, parts, rule=RULE + ' Plus: every history of up to 3 (thorough 5) messages over {roStorySend, roStoryAppend, '
         'roMetadataReplace, roReplace, roDelete} read with from_file from files holding comments and processing instructions: '
-        'after every step the serialisation reads back identically through from_string and through from_file.',
+        'after every step the serialisation reads back identically through from_string and through from_file. Plus: every history of up to 3 (thorough 4) '
+        'messages on one live object over {appends / inserts / replaces that repeat a storyID or carry blank storyIDs, a re-sent append, roDelete for this, another and a blank roID, '
+        'roMetadataReplace}, from a running order with its usual and with a blank roID: read-back identity, story and item IDs, completed flag, one roCreate, at most one completion record.',
         vacuity=vacuity, enum_parts=enum_parts,
-        assumptions=['all messages are addressed to the running order\'s own roID',
+        assumptions=['all messages of the graph parts are addressed to the running order\'s own roID (the repeated-ID / foreign-roDelete histories are the exception)',
                      'U+000D in text is outside the alphabet (xml.etree writes it raw and every reader normalises it)',
                      'soundness of text-canonicalised states rests on the bisimulation check reported here'])
